@@ -11,11 +11,13 @@ import RichModel.Lemmas.WrapRstrip
 import RichModel.Lemmas.WrapFullKept
 import RichModel.Lemmas.TotalityWrap
 import RichModel.Lemmas.WrapRealStyle
+import RichModel.Lemmas.WrapExact
+import RichModel.Lemmas.WrapNarrow
 import RichModel.Props.C13
 /-!
 # C02 — word wrapping keeps every character, in order, with its own style
 
-Property theorems only, 29 of them (helper lemmas: `Lemmas/Wrap*.lean`; `divideLine_weak`, the offsets at any width,
+Property theorems only, 42 of them (helper lemmas: `Lemmas/Wrap*.lean`; `divideLine_weak`, the offsets at any width,
 comes from C14's `Lemmas/TotalityWrap.lean`).  Model: `Model/Wrap.lean` (`_wrap.py`, `Text.wrap`,
 `Lines.justify`) on top of `Model/Text.lean` (C05) and `Model/Cells.lean` (C13); `Model/Style.lean` (C06) is used
 read-only by the three theorems about rich's real `Style` algebra.  All statements quantify over an arbitrary cell-width function `cw` with only the hypotheses they use
@@ -112,6 +114,24 @@ theorem wrap_lines_fit [BEq σ] (wv : WVariant) (cw : Char → Nat) (hsp : cw ' 
   intro l hl
   obtain ⟨l0, rfl⟩ := wrapParagraphs_all_truncated wv cw A w _ _ _ _ ps out h l hl
   exact truncate_fits cw hsp h2 hel l0 w hw _ hov false
+
+/-- `Text.truncate(w, overflow, pad)` on its own — the crop / ellipsis / pad step that `Lines.justify("left")` and the
+end of `wrap` apply to every line: for every text, every span set, overflow "fold", "crop" or "ellipsis", padding on or
+off, width ≥ 1, the result fits the width. -/
+theorem truncate_line_fits (cw : Char → Nat) (hsp : cw ' ' = 1) (h2 : ∀ c, cw c ≤ 2) (hel : cw '…' = 1)
+    (t : Text σ) (w : Nat) (hw : 1 ≤ w) (ov : Overflow) (hov : ov ≠ Overflow.ignore) (pad : Bool) :
+    cellLen cw (t.truncate cw (w : Int) (some ov) pad).plain ≤ w :=
+  truncate_fits cw hsp h2 hel t w hw ov hov pad
+
+example : ((Text.new Variant.repaired ['a', 'b', 'c', 'd', 'e'] (0 : Nat)).truncate (fun _ => 1) 4 (some .ellipsis) true).plain
+    = ['a', 'b', 'c', '…'] := by rfl
+
+/-- `divide_line` with `fold=False` (overflow "crop" / "ellipsis": a word wider than the line is not cut) and at ANY
+width, also below the boundary: the offsets ascend and stay inside the text (weakly: `narrow_offset_zero` shows why not
+strictly) — what `Text.divide` needs to cut the styled string (`divide_effStyle`). -/
+theorem divideLine_offsets_any_width (cw : Char → Nat) (text : List Char) (w : Nat) (fold : Bool) :
+    AscFrom 0 (divideLine cw text w fold) ∧ ∀ o ∈ divideLine cw text w fold, o ≤ text.length :=
+  divideLine_weak cw text w fold
 
 /-! ## the heart: `divide` cuts the styled string -/
 
@@ -288,6 +308,148 @@ theorem wrap_fold_keeps_styles_exact [BEq σ] (cw : Char → Nat) (hsp : cw ' ' 
   rw [hov, hnw]
   obtain ⟨out, h1, h3, _⟩ := wrapLine_fold_keeps cw hsp h2 A w hwc _ hj P hP
   exact ⟨P, out, no_tab_paragraph t P tabSize htab hPc, h1, h3⟩
+
+/-! ## the exact form where `wrap` itself adds style names: tabs and justify "full"
+
+`wrap_fold_keeps_styles_exact` compares name lists exactly for tab-free texts and justify other than "full".  The two
+remaining cases are not weaker in kind — `wrap` adds a style name **in front** of the effective style, and exactly
+there: `Text.expand_tabs` rebuilds a paragraph that contains a tab through `Text.append(part)` (span of the part's
+base style first, then the part's spans), so every character of such a paragraph carries the base style once more in
+front (`tabMark`); `Lines.justify(…, "full")` rebuilds every line of a paragraph but the last as
+`Text("").join(tokens)`, so every character of such a line carries the null style `""` in front (`fullMark`).  The
+theorems below state this as equalities of name lists; `tabs_exact_form_fails` / `full_exact_form_fails` are the
+machine-checked reasons why the unmarked equality cannot hold there. -/
+
+/-- `expand_tabs` exactly: a paragraph with a tab shows its non-whitespace characters, in order, each with the base
+style followed by the effective style it had (base style, then the covering spans in span order) — the order of the
+part's base-style span and the part's own spans in `Text.append` is what this pins down. -/
+theorem expandTabs_exact [BEq σ] (P : Text σ) (h : Inv P) (ts : Nat) (hts : 0 < ts) :
+    ∃ Q, (if P.plain.contains '\t' then P.expandTabs Variant.repaired (some ts) else .ok P) = .ok Q ∧ Inv Q ∧
+      Q.style = P.style ∧ nsv Q.view = tabMark P := by
+  obtain ⟨Q, hQ, hQi, hst, hno, hyes⟩ := expandTabs_ink' P h ts hts
+  by_cases hc : P.plain.contains '\t' = true
+  · exact ⟨Q, by rw [if_pos hc]; exact hQ, hQi, hst, by rw [hyes hc, tabMark, if_pos hc]⟩
+  · exact ⟨P, by rw [if_neg hc], h, rfl, by rw [tabMark, if_neg hc]⟩
+
+/-- **Exact styles for texts with tabs** (justify "default", "left", "center", "right"; any tab size ≥ 1): the
+non-whitespace characters of the produced lines, with their style lists, are those of the paragraphs of the text
+(`split` on newlines: same characters, same styles), where exactly the characters of a paragraph that contains a tab
+carry the base style once more in front. -/
+theorem wrap_fold_keeps_styles_exact_tabs [BEq σ] (cw : Char → Nat) (hsp : cw ' ' = 1) (h2 : ∀ c, cw c ≤ 2)
+    (A : StyleAlg σ) (t : Text σ) (ht : Inv t) (w : Nat) (hwc : ∀ c, cw c ≤ w) (justify : Option Justify)
+    (overflow : Option Overflow) (ts : Nat) (hts : 0 < ts) (noWrap : Option Bool)
+    (hov : wrapOverflowOf t overflow = Overflow.fold) (hnw : noWrapOf t overflow noWrap = false)
+    (hj : wrapJustifyOf t justify ≠ Justify.full) :
+    ∃ out ps, wrap (WVariant.fixed chars) cw A t w justify overflow (some ts) noWrap = .ok out ∧
+      t.split Variant.repaired ['\n'] false true = .ok ps ∧ nsv (ps.flatMap Text.view) = nsv t.view ∧
+      (∀ P ∈ ps, Inv P ∧ P.style = t.style ∧ '\n' ∉ P.plain) ∧
+      nsv (out.flatMap Text.view) = ps.flatMap tabMark := by
+  apply wrap_over_paragraphs_exact cw A t ht w justify overflow (some ts) noWrap tabMark
+  intro P hP _
+  rw [hov, hnw]
+  obtain ⟨Q, hQ, hQi, _, hQv⟩ := expandTabs_exact P hP ts hts
+  obtain ⟨out, h1, h3, _⟩ := wrapLine_fold_keeps (chars := chars) cw hsp h2 A w hwc _ hj Q hQi
+  exact ⟨Q, out, hQ, h1, h3.trans hQv⟩
+
+/-- **Exact styles for justify "full"**, one paragraph (tabs expanded): cut the paragraph's styled string at the
+offsets of `divide_line`; the non-whitespace characters of the produced lines are those of the pieces, in order, the
+characters of every piece but the last with the null style `""` in front of their style list, those of the last piece
+with exactly their style list. -/
+theorem wrapLine_fold_keeps_full_exact [BEq σ] (cw : Char → Nat) (hsp : cw ' ' = 1) (A : StyleAlg σ) (w : Nat)
+    (hwc : ∀ c, cw c ≤ w) (P : Text σ) (hP : Inv P) :
+    ∃ out, wrapLine (WVariant.fixed chars) cw A P w Justify.full Overflow.fold false = .ok out ∧
+      nsv (out.flatMap Text.view) =
+        fullMark A.null ((pieces (divideLine cw P.plain w true) P.view).map nsv) := by
+  obtain ⟨out, h1, h2⟩ := wrapLine_fold_full_exact (chars := chars) cw hsp A w hwc P hP
+  exact ⟨out, h1, by rw [h2, paraInk, if_pos rfl]⟩
+
+/-- what `fullMark` is: the characters of the lines, in order; each style list is kept or gets the null style in
+front — nothing else -/
+theorem fullMark_chars (null : σ) (ls : List (List (Char × List σ))) :
+    (fullMark null ls).length = ls.flatten.length ∧
+      ∀ p ∈ (fullMark null ls).zip ls.flatten, p.1.1 = p.2.1 ∧ (p.1.2 = p.2.2 ∨ p.1.2 = null :: p.2.2) :=
+  fullMark_spec null ls
+
+/-- **The whole of `Text.wrap`, every justify mode, tabs, exactly**: the non-whitespace characters of the produced
+lines with their style lists are, paragraph by paragraph, `wrapInk`: expand the tabs (`expandTabs_exact`: base style
+once more in front when there is a tab), then — for "full" only — the null style in front on every line of the
+paragraph but the last (`fullMark` over the pieces cut at `divide_line`'s offsets).  No normal form. -/
+theorem wrap_fold_keeps_exact [BEq σ] (cw : Char → Nat) (hsp : cw ' ' = 1) (h2 : ∀ c, cw c ≤ 2)
+    (A : StyleAlg σ) (t : Text σ) (ht : Inv t) (w : Nat) (hwc : ∀ c, cw c ≤ w) (justify : Option Justify)
+    (overflow : Option Overflow) (ts : Nat) (hts : 0 < ts) (noWrap : Option Bool)
+    (hov : wrapOverflowOf t overflow = Overflow.fold) (hnw : noWrapOf t overflow noWrap = false) :
+    ∃ out ps, wrap (WVariant.fixed chars) cw A t w justify overflow (some ts) noWrap = .ok out ∧
+      t.split Variant.repaired ['\n'] false true = .ok ps ∧ nsv (ps.flatMap Text.view) = nsv t.view ∧
+      (∀ P ∈ ps, Inv P ∧ P.style = t.style ∧ '\n' ∉ P.plain) ∧
+      nsv (out.flatMap Text.view) = ps.flatMap (wrapInk cw A w (wrapJustifyOf t justify) (some ts)) := by
+  apply wrap_over_paragraphs_exact cw A t ht w justify overflow (some ts) noWrap
+  intro P hP _
+  rw [hov, hnw]
+  obtain ⟨Q, hQ, hQi, _, _⟩ := expandTabs_exact P hP ts hts
+  have hF : wrapInk cw A w (wrapJustifyOf t justify) (some ts) P = paraInk cw A w (wrapJustifyOf t justify) Q := by
+    unfold wrapInk; rw [hQ]
+  by_cases hj : wrapJustifyOf t justify = Justify.full
+  · rw [hj] at hF ⊢
+    obtain ⟨out, h1, h3⟩ := wrapLine_fold_full_exact (chars := chars) cw hsp A w hwc Q hQi
+    exact ⟨Q, out, hQ, h1, by rw [hF, h3]⟩
+  · obtain ⟨out, h1, h3, _⟩ := wrapLine_fold_keeps (chars := chars) cw hsp h2 A w hwc _ hj Q hQi
+    exact ⟨Q, out, hQ, h1, by rw [hF, h3, paraInk, if_neg hj]⟩
+
+/-- **The blanks full justification inserts**: the complete styled string of a rebuilt line — not only its
+non-whitespace characters — is that of its tokens one after the other, every character with the null style in front;
+the tokens are the words of `line.split(" ")` and between two words `spaces[i]` blanks (`fullTokens`), and such a blank
+token shows each blank with exactly ONE style (`full_blank_style`): the `Style` `get_style_at_offset` computes at the
+last character of the word when it is `==` the one at the first character of the next word, otherwise the line's base
+style.  So an inserted blank renders with `null + that style`: it continues a style its two neighbours share
+(underline, background) and never picks up the style of only one of them. -/
+theorem justify_full_line_exact [BEq σ] (cw : Char → Nat) (A : StyleAlg σ) (line : Text σ) (h : Inv line) (w : Nat) :
+    ∃ (ws : List (Text σ)) (out : Text σ), line.split Variant.repaired [' '] = .ok ws ∧
+      justifyFullLine Variant.repaired cw A line w = .ok out ∧
+      out.view = (fullTokens Variant.repaired A line.style ws
+          (fullSpaces (ws.map (fun x => cellLen cw x.plain)).sum ws.length w)).flatMap
+        (fun x => x.view.map (fun p => (p.1, A.null :: p.2))) :=
+  justifyFullLine_view cw A line h w
+
+/-- the blank token `Text(" " * n, style=space_style)`: `n` blanks, each with `space_style` and nothing else -/
+theorem full_blank_style (n : Nat) (st : σ) :
+    (Text.new Variant.repaired (List.replicate n ' ') st).view = List.replicate n (' ', [st]) :=
+  blank_view n st
+
+/-- `"ab cd "` with style 7 on `b c`, width 8 (`exLine`): the four blanks between the words carry the null style 100 and
+`comb [0, 7] = 7` — the style both neighbours `b` and `c` have — not the bare base style -/
+example : (justifyFullLine Variant.repaired (fun _ => 1) exAlg exLine 8).map Text.view =
+    .ok [('a', [100, 0]), ('b', [100, 0, 7]), (' ', [100, 7]), (' ', [100, 7]), (' ', [100, 7]), (' ', [100, 7]),
+      ('c', [100, 0, 7]), ('d', [100, 0])] := by rfl
+
+/-- why the unmarked equality fails with a tab: `"a\tb"` with base style 0 and style 1 on `b`, tab size 2, width 4 —
+after wrapping `a` carries `[0, 0]` and `b` carries `[0, 0, 1]` (base style in front once more, *before* the span),
+not `[0]` and `[0, 1]` -/
+theorem tabs_exact_form_fails :
+    (wrap WVariant.repaired (fun _ => 1) (⟨9, List.sum, (· == ·)⟩ : StyleAlg Nat)
+        (Text.new Variant.repaired ['a', '\t', 'b'] 0 [⟨2, 3, 1⟩]) 4 none none (some 2)).map
+        (fun ls => nsv (ls.flatMap Text.view)) = .ok [('a', [0, 0]), ('b', [0, 0, 1])] ∧
+    nsv (Text.new Variant.repaired ['a', '\t', 'b'] (0 : Nat) [⟨2, 3, 1⟩]).view = [('a', [0]), ('b', [0, 1])] := by
+  constructor <;> rfl
+
+/-- why the unmarked equality fails for "full": `"a b c"` at width 3 — the first line is rebuilt (`a`, `b` carry the
+null style 9 in front), the last line is not -/
+theorem full_exact_form_fails :
+    (wrap WVariant.repaired (fun _ => 1) (⟨9, List.sum, (· == ·)⟩ : StyleAlg Nat)
+        (Text.new Variant.repaired ['a', ' ', 'b', ' ', 'c'] 0 [⟨2, 5, 1⟩]) 3 (some .full)).map
+        (fun ls => nsv (ls.flatMap Text.view)) = .ok [('a', [9, 0]), ('b', [9, 0, 1]), ('c', [0, 1])] := by
+  rfl
+
+/-- a text with a tab paragraph and a tab-free one meets the hypotheses of the exact theorems -/
+example : Inv (Text.new Variant.repaired ['a', '\t', 'b', '\n', 'c'] (0 : Nat) [⟨2, 5, 1⟩]) :=
+  inv_new _ _ _ _ _ _ _ _ (by
+    intro sp hsp
+    simp only [List.mem_cons, List.mem_nil_iff, or_false] at hsp
+    subst hsp; decide)
+
+example :
+    (wrap WVariant.repaired (fun _ => 1) (⟨9, List.sum, (· == ·)⟩ : StyleAlg Nat)
+        (Text.new Variant.repaired ['a', '\t', 'b', '\n', 'c'] 0 [⟨2, 5, 1⟩]) 4 none none (some 2)).map
+        (fun ls => nsv (ls.flatMap Text.view)) = .ok [('a', [0, 0]), ('b', [0, 0, 1]), ('c', [0, 1])] := by rfl
 
 /-! ## every overflow mode: each character that is output carries the style it had -/
 
@@ -513,6 +675,22 @@ theorem narrow_wide_character_lost :
     (wrap WVariant.repaired exCw (⟨0, List.sum, (· == ·)⟩ : StyleAlg Nat) (Text.new Variant.repaired ['a', 'あ', 'b'] 0) 1).map
         (fun ls => ls.map (·.plain)) = .ok [['a'], [' '], ['b']] := by
   refine ⟨by decide, by decide, by decide, by rfl⟩
+
+/-- **Below the boundary, as a theorem rather than a hypothesis**: the only character that can be wider than a line
+of width ≥ 1 is a 2-cell character at width 1.  Whatever line starts with such a character (at width 1 with folding
+every 2-cell character starts a piece of its own: `narrow_wide_character_lost`, and the width-1 cases of the harness),
+the final crop of `Text.wrap` — `truncate(1, overflow)` — turns it into **exactly one blank** ("fold", "crop":
+`set_cell_size` pops the wide character too, the excess becomes -1 and a blank is appended) or **exactly the ellipsis**
+("ellipsis"), for every width function, every text after the character, every span set: the character is not kept, not
+split, not replaced by anything wider; the line fits (`wrap_lines_fit`) and what remains carries its own style
+(`wrapLine_style_preserved`, both at every width ≥ 1). -/
+theorem narrow_wide_first_cropped (cw : Char → Nat) (t : Text σ) (c : Char) (rest : List Char) (hp : t.plain = c :: rest)
+    (hc : cw c = 2) (ov : Overflow) (hov : ov ≠ Overflow.ignore) :
+    (t.truncate cw 1 (some ov)).plain = if ov = Overflow.ellipsis then ['…'] else [' '] :=
+  truncate_wide_first cw t c rest hp hc ov hov
+
+example : exCw 'あ' = 2 ∧ (Text.new Variant.repaired ['あ', 'a', 'b'] (0 : Nat) [⟨0, 2, 1⟩]).plain = 'あ' :: ['a', 'b'] :=
+  ⟨by decide, rfl⟩
 
 /-- outside: when the paragraph *starts* with a character wider than the width, `chop_cells` yields an empty first
 chunk and the first offset is 0 — not inside `(0, len)` (`divideLine_offsets` fails; the weak form of C14 holds) -/
